@@ -86,7 +86,13 @@ class Table:
 
     def done(self, msg_fail, sample=None):
         if self.undecided and not self.bad:
-            raise AnalysisError(f"{self.rule} {self.name}: cannot decide ({self.undecided[0]})" + (f" (+{len(self.undecided) - 1} more)" if len(self.undecided) > 1 else ""))
+            msg = f"{self.rule} {self.name}: cannot decide ({self.undecided[0]})" + (f" (+{len(self.undecided) - 1} more)" if len(self.undecided) > 1 else "")
+            if hasattr(self.chk, "defer"):
+                # the remaining obligations are still evaluated: a definite violation elsewhere is reported (exit 1, this one as a note),
+                # without any the run ends as an analysis error (exit 2)
+                self.chk.defer(msg)
+                return False
+            raise AnalysisError(msg)
         if self.cells == 0:
             raise AnalysisError(f"{self.rule} {self.name}: no cells evaluated")
         if sample is not None:
@@ -137,3 +143,56 @@ def provably_le(a, b):
         if a.same(Term.sym(name)) and key[0] == "min" and any(k == b.key() for k in key[1:]):
             return True
     return False
+
+
+# ---------------------------------------------------------------------------------------------- shared contract: into_ranges
+def into_ranges_index_kind(prog):
+    """How the Series returned by skgenome.intersect.into_ranges is labelled, read off the real function by interpreting it on two
+    literal table pairs (values present / nothing to summarise): "dest" = labelled like the destination table's rows,
+    "fresh" = a new 0..n-1 index.  Harnesses that summarise into_ranges build their stub from this, so a store of its result
+    into a table with a non-default index is judged against what the source really does."""
+    cache = getattr(prog, "_into_ranges_kind", None)
+    if cache is not None:
+        return cache
+    from .absval import DF, Vec
+
+    def mk(rows, labels):
+        df = DF({"chromosome": Vec([r[0] for r in rows], aligned=True), "start": Vec([r[1] for r in rows], aligned=True), "end": Vec([r[2] for r in rows], aligned=True),
+                 "v": Vec([r[3] for r in rows], aligned=True)}, len(rows), "any")
+        df.exact, df.labels = True, list(labels)
+        return df
+    kinds = []
+    for src_rows in ([("a", 0, 10, 1), ("a", 10, 20, 2), ("a", 30, 40, 3)], []):
+        W.reset()
+        it = Interp(prog, Model())
+        dest = mk([("a", 0, 20, 0), ("a", 25, 50, 0)], [7, 3])
+        try:
+            out = it.run("skgenome.intersect.into_ranges", [mk(src_rows, [5, 6, 8][:len(src_rows)]), dest, "v", -1, (lambda ser: 99)])
+        except (Undecided, Raised) as e:
+            raise AnalysisError(f"into_ranges contract: cannot interpret skgenome.intersect.into_ranges on a literal pair: {e}")
+        if not isinstance(out, Vec) or len(out.v) != 2:
+            raise AnalysisError(f"into_ranges contract: result is not one value per destination range: {out!r}")
+        if out.labels == [7, 3] and out.aligned:
+            kinds.append("dest")
+        elif out.fresh or out.labels == [0, 1]:
+            kinds.append("fresh")
+        else:
+            raise AnalysisError(f"into_ranges contract: unrecognised labelling of the result (labels {out.labels}, fresh={out.fresh}, aligned={out.aligned})")
+    kind = "dest" if all(k == "dest" for k in kinds) else "fresh"
+    prog._into_ranges_kind = kind
+    return kind
+
+
+def into_ranges_stub(prog, values_of):
+    """a GenomicArray.into_ranges summary: values_of(it, self, other, column, default, summary_func) -> list of values; the Series is
+    labelled the way the real function labels it (see into_ranges_index_kind)"""
+    kind = into_ranges_index_kind(prog)
+
+    def stub(it, obj, other, column, default, summary_func=None):
+        vals = list(values_of(it, obj, other, column, default, summary_func))
+        if kind == "dest":
+            r = Vec(vals, aligned=(other.data.index if other.data.index != "range" else True))
+            r.labels = other.data.labels
+            return r
+        return Vec(vals, fresh=True)
+    return stub
